@@ -47,7 +47,7 @@ def classify_leaf(leaf):
     return "handle", crate[-1]
 
 
-def k_fresh_state(P, E):
+def k_fresh_state(P, E, scope=None):
     r = RuleResult("K-fresh-state", "the closure given to Observable::create in a cold constructor "
                                     "captures no mutable per-subscription cell allocated outside it")
     for c in E.sites["create"]:
@@ -62,6 +62,8 @@ def k_fresh_state(P, E):
             continue
         cold, root = cold_constructor(P, sb)
         rootn = norm(sb.root)
+        if scope is not None and not scope(rootn):
+            continue
         if not cold:
             r.instance((rootn, "hot/other constructor"), False)
             continue
